@@ -470,15 +470,27 @@ func checkC15(c *Ctx) {
 
 	// (3b) no third-party object shared between runs
 	{
-		var fns []*ssa.Function
-		for f := range runScope(t) {
-			fns = append(fns, f)
+		for _, sc := range []struct {
+			name string
+			fns  map[*ssa.Function]bool
+		}{{"run", runScope(t)}, {"load", load}, {"parse", parse}} {
+			var fns []*ssa.Function
+			for f := range sc.fns {
+				fns = append(fns, f)
+			}
+			sortFuncs(fns)
+			n, bad := sharedObjects(t, fns)
+			what := "runs"
+			if sc.name != "run" {
+				what = "loads"
+			}
+			r.Ob("NO-HIDDEN-STATE", sc.name+" scope shares no mutable third-party object between "+what, "", len(bad) == 0,
+				fmt.Sprintf("%d uses of package-level variables holding foreign struct types inspected (sync.Pool, regexp.Regexp, time.Location accepted; a sync.Map or a cache object is state that outlives the call); %s", n, strings.Join(bad, "; ")))
 		}
-		sortFuncs(fns)
-		n, bad := sharedObjects(t, fns)
-		r.Ob("NO-HIDDEN-STATE", "run scope shares no mutable third-party object between runs", "", len(bad) == 0,
-			fmt.Sprintf("%d uses of package-level pointers to foreign struct types inspected (sync.Pool, regexp.Regexp, time.Location accepted); %s", n, strings.Join(bad, "; ")))
 	}
+
+	// (3c) nothing kept on the shared tree flows into a run
+	treeContainers(c, "NO-HIDDEN-STATE")
 
 	// (4) registers and flags
 	rce := t.Func(pRT, "RunCallExpr")
@@ -616,7 +628,7 @@ func c15ExceptionHolds(t *Tree, typ, field string) bool {
 // goroutine) to the next. sync.Pool (its purpose), *regexp.Regexp and *time.Location (immutable after
 // construction, documented safe for concurrent use) are the only accepted types.
 func sharedObjects(t *Tree, fns []*ssa.Function) (n int, bad []string) {
-	allowed := map[string]bool{"*sync.Pool": true, "*regexp.Regexp": true, "*time.Location": true, "sync.Pool": true}
+	allowed := map[string]bool{"*sync.Pool": true, "*regexp.Regexp": true, "*time.Location": true, "sync.Pool": true, "*os.File": true /* os.Stderr/os.Stdout: diagnostics sink, not an input of any result */}
 	seen := map[string]bool{}
 	for _, f := range fns {
 		allInstrs(f, func(in ssa.Instruction) {
